@@ -367,7 +367,7 @@ func RunC19(e *Env) (int, error) {
 	defer pool.Close()
 	worldRoot := filepath.Join(e.Tree.Root, "c19")
 	maxCalls := e.Pick(8, 14)
-	n := int64(e.Pick(6000, 120000))
+	n := e.N(6000, 120000)
 
 	exec := func(c *C19Case, run int64, tag string) ([]taskOutcome, []int, *wire.Result, error) {
 		dir := filepath.Join(worldRoot, fmt.Sprintf("%s-%d", tag, run))
@@ -388,6 +388,7 @@ func RunC19(e *Env) (int, error) {
 			return harness.RunResult{Err: err}
 		}
 		v := judgeC19(c, tasks, freshOf)
+		e.Log(run, c, v.Outcomes, v.Clause, res.Probes.Sig, res.Probes.Steps)
 		key := ""
 		if v.NonTriv {
 			js, _ := json.Marshal(c.Ops)
